@@ -24,8 +24,8 @@ RULE = ("case = (condition term of the meaningful fragment, probe container, pro
         "Non-trivial = argument is not a bare scalar, or the term is a combination; distinct by term fingerprint.")
 LEVEL_TEXT = ("Exploration: executable round-trip oracle (serialise -> real JSON text -> rebuild -> compare "
               "structurally and behaviourally -> re-serialise) over the meaningful DSL fragment. Sampled.")
-LEVEL_NOTE = ("Tuple arguments, non-string-keyed mapping arguments, NoneType and literal keys that already contain "
-              "the escape sequence are outside 'JSON-representable / nameable' and are not generated.")
+LEVEL_NOTE = ("Tuple arguments, non-string-keyed mapping arguments and NoneType are outside 'JSON-representable / nameable' "
+              "and are not generated. Literal keys that contain the escape sequence are generated (F28).")
 TECHNIQUE = "runtime monitoring: executable round-trip oracle through real JSON text"
 ASSUMPTIONS = []
 
@@ -34,7 +34,9 @@ NUMERIC = ["equal_to", "not_equal_to", "less_than", "greater_than", "less_than_o
            "equal_to_approx", "truthy", "falsy", "null"]
 DTYPE_FNS = ["equal_to", "not_equal_to", "in_", "not_in"]
 TYPE_NAMES = ["int", "float", "str", "list", "dict", "bool", "path"]
-PATHLIKE_LITERALS = [{"path.v2": 1}, {"path.map-keys": [{"a": 1}]}, {"path.l\u00e4ngd": None}, {"path. length": True}, {"path.1": 3}, {"PATH.Len2": [1]},
+PATHLIKE_LITERALS = [{"\\path": 1}, {"a\\path": [1]}, {"\\path": 1, "b": 2}, {"k": {"\\path": 1}}, {"path.\\path": 1}, {"\\\\path": [1]},
+                     {"x\\PATH": 2}, {"path": 1, "\\Path": 2}, {"k": {"j": {"\\path": 1}}}, [{"\\path.length": ["a"]}],
+                     {"path.v2": 1}, {"path.map-keys": [{"a": 1}]}, {"path.l\u00e4ngd": None}, {"path. length": True}, {"path.1": 3}, {"PATH.Len2": [1]},
                      {"path.first.length.x": 2.5}, {"path.Length ": [{"k": 1}]}, {"PATH": ["A"]}, {"pAtH.LENGTH": ["A"]}, {"Path.First.Map_Keys": ["A"]},
                      {" path": ["A"]}, {"path ": ["A"]}, {"Path .length": ["A"]}, {"path. length": ["A"]}, {"\tpath": 1}, {"path\n": ["A"]},
                      {"path": ["A"]}, {"path": 3}, {"path.length": ["a"]}, {"Path": ["A"]}, {"PATH.first": [1]},
@@ -97,7 +99,7 @@ def _arg_ok(a, depth=0):
     if type(a) is list:
         return all(_arg_ok(i, depth + 1) for i in a)
     if type(a) is dict:
-        return all(type(k) is str and "\\path" not in k.lower() for k in a) and all(_arg_ok(v, depth + 1) for v in a.values())
+        return all(type(k) is str for k in a) and all(_arg_ok(v, depth + 1) for v in a.values())
     return type(a) in (int, float, str, bool, type(None))
 
 
@@ -213,6 +215,10 @@ def strata(tier):
             sdoc = {"rows": [[5], [6, 7], {"x": [8]}], 0: [[9]], 1: {"x": 1}}
             for tm in (PC.L("value", "equal_to", P), PC.L("value", "in_", [P, 5])):
                 yield {"term": tm, "cont": [5, [5], 6, [[5], [6, 7]], None], "doc": sdoc, "path": PC.mkpath([{"p": "mol"}]), "arg_kind": "path-with-almost-primitive-part"}
+    # a one-item mapping argument keyed like the path key whose value is a data path (F27, positional form)
+    Pq = {"$path": PC.mkpath([{"p": "prim", "v": "x"}])}
+    for tm in (PC.L("value", "equal_to", {"path": Pq}), PC.L("value", "in_", [{"Path.length": Pq}, 2]), PC.L("value", "not_equal_to", {"path": Pq})):
+        yield {"term": tm, "cont": [{"path": 3}, 3, 2], "doc": {"x": 3}, "path": PC.mkpath([{"p": "mol"}]), "arg_kind": "mapping-keyed-path"}
     # a keyword that is itself named like a path key, with every kind of value
     Px = {"$path": PC.mkpath([{"p": "prim", "v": "x"}])}
     for kwname in ("path", "Path", "path.length"):
@@ -316,7 +322,7 @@ def run(case, ctx):
     key_tail = f"{cname(t)}/{ak}"
     if any(_sole_pathlike_keyword_with_datapath(l) for l in M.leaves(t)):
         # (one mechanism, one key: the JSON form has no spelling that tells this from the literal mapping)
-        key_tail = "keyword-named-path-with-datapath-value"
+        key_tail = "pathlike-key-with-datapath-value"
     ok, c = call(build.cond_obj, t)
     if not ok:
         ctx.violate(f"C11/dsl-construct:{c.type}/{key_tail}", f"{c!r}; {t}")
@@ -397,11 +403,20 @@ def run(case, ctx):
 
 
 def _sole_pathlike_keyword_with_datapath(leaf):
+    """a one-item mapping - the keyword mapping, a mapping argument, or a mapping item of a list argument - whose only key is
+    named like the path key and whose value is a data path"""
+    def hit(d):
+        if type(d) is not dict or len(d) != 1 or M.is_pathref(d) or M.is_typeref(d):
+            return False
+        (k, v), = d.items()
+        return type(k) is str and k.lower().split(".")[0] == "path" and M.is_pathref(v)
     kw = leaf.get("kwargs") or {}
-    if len(kw) != 1 or leaf.get("args"):
-        return False
-    (k, v), = kw.items()
-    return type(k) is str and k.lower().split(".")[0] == "path" and M.is_pathref(v)
+    if kw and not leaf.get("args") and hit(kw):
+        return True
+    for a in leaf.get("args", []):
+        if hit(a) or (type(a) is list and any(hit(i) for i in a)):
+            return True
+    return False
 
 
 def _leaf_objs(c):
